@@ -17,6 +17,10 @@ func main() {
 	switch os.Args[1] {
 	case "build":
 		rc = cmdBuild(os.Args[2:])
+	case "check":
+		rc = cmdCheck(os.Args[2:])
+	case "replay":
+		rc = cmdReplay(os.Args[2:])
 	default:
 		fmt.Fprintln(os.Stderr, "unknown command", os.Args[1])
 		rc = 2
